@@ -12,6 +12,9 @@ use s2n_quic_core::{connection, event, event::supervisor, path::mtu, time::Times
 mod api;
 mod api_provider;
 mod close_sender;
+#[cfg(aws_s2n_quic_verif)]
+#[path = "../verif_hooks/close_sender.rs"]
+pub mod verif_close_sender;
 mod connection_container;
 mod connection_id_mapper;
 mod connection_impl;
